@@ -176,6 +176,15 @@ Proof.
   - intros n ndn Hn. destruct (upd_back _ _ _ _ _ _ _ _ Hj Hn) as (nd0 & Hn0 & _). eapply oz, Hn0.
 Qed.
 
+Lemma ObsInv_ingest_at_f fx fn U w j sender ops :
+  InvU U w -> ObsInv U w -> (forall o, In o ops -> U o) -> ObsInv U (ingest_at_f fx fn w j sender ops).
+Proof.
+  intros I OI Hops. unfold ingest_at_f. destruct (bool_decide (fn = j)); [|apply ObsInv_ingest_at; assumption].
+  destruct (ingest_at_fail_cases fx w j sender ops) as [->|[E1 _]]; [apply ObsInv_ingest_at; assumption|].
+  eapply (ObsInv_same_logs U w); [|apply world_le_ext; symmetry; exact E1|exact OI].
+  intros n nd' H. rewrite E1 in H. eauto.
+Qed.
+
 (* DB.Set / DB.Delete *)
 Lemma ObsInv_write U w n k v lease del :
   InvU U w -> ObsInv U w ->
@@ -240,7 +249,7 @@ Theorem ObsInv_step fx T U w s :
   InvU U w -> ObsInv U w -> ok_step U w s -> ObsInv (grow U (new_op w s)) (step fx T w s).1.
 Proof.
   intros I OI Hok. destruct (step_preserves fx T U w s I Hok) as [_ L].
-  destruct s as [n k v lease|n k|n sender b|n|m n|i j late|f| |n|n p|n p|n p|n s filter|n s]; simpl in *.
+  destruct s as [n k v lease|n k|n sender b|n|m n|i j late|f| |n|n p|n p|n p|n s filter|fn g|n s]; simpl in *.
   - destruct (ObsInv_write U w n k v lease false I OI Hok) as [X1 X2]. destruct fx; assumption.
   - destruct (ObsInv_write U w n k 0 0 true I OI Hok) as [X1 X2]. destruct fx; assumption.
   - apply ObsInv_grow_None, ObsInv_ingest_at; assumption.
@@ -281,6 +290,20 @@ Proof.
     exists nd0. split; [exact H0|]. destruct (decide (m = n)) as [->|Hmn].
     + destruct (Eq eq_refl) as [-> ->]. reflexivity.
     + rewrite (Ne Hmn). reflexivity.
+  - apply ObsInv_grow_None. destruct g as [n sender b|m n|i j late]; simpl in *.
+    + apply ObsInv_ingest_at_f; assumption.
+    + destruct (w_msgs w !! m) as [[sender ops]|] eqn:Em; simpl; [|exact OI].
+      apply ObsInv_ingest_at_f; [exact I|exact OI|]. intros o Ho. eapply iu_sub; [exact I|]. eapply iw_msg; eassumption.
+    + unfold round_f.
+      destruct (w_nodes w !! i); [|exact OI]. destruct (w_nodes w !! j); [|exact OI].
+      destruct (bool_decide (i = j)); [exact OI|].
+      destruct (payload w i) as [|o pl] eqn:Ep; [exact OI|].
+      assert (forall x, In x (o :: pl) -> U x) as Hpl by (intros x Hx; rewrite <- Ep in Hx; exact (InvU_payload U w i x I Hx)).
+      pose proof (InvU_ingest_at_f fx fn U w j i (o :: pl) I Hpl) as I1.
+      pose proof (ObsInv_ingest_at_f fx fn U w j i (o :: pl) I OI Hpl) as O1.
+      destruct late.
+      * apply ObsInv_ingest_at_f; [exact I1|exact O1|]. intros x Hx. exact (InvU_payload U _ j x I1 Hx).
+      * apply ObsInv_ingest_at_f; [exact I1|exact O1|]. intros x Hx. exact (InvU_payload U w j x I Hx).
   - apply ObsInv_grow_None. eapply (ObsInv_same_logs U w); [|exact L|exact OI].
     unfold stall. destruct (w_nodes w !! n) as [nd|] eqn:En; [|eauto].
     intros m ndm Hm. destruct (upd_back w n nd _ (w_msgs w) (w_fbs w) m ndm En Hm) as (nd0 & H0 & Eq & Ne).
@@ -414,6 +437,13 @@ Proof.
   - rewrite (Ne Hmj). exists nd0, []. rewrite app_nil_r. split; [exact H0|]. split; [reflexivity|]. intros k x H1 H2. congruence.
 Qed.
 
+Lemma log_rel_ingest_at_f fx fn w j sender ops : log_rel w (ingest_at_f fx fn w j sender ops).
+Proof.
+  unfold ingest_at_f. destruct (bool_decide (fn = j)); [|apply log_rel_ingest_at].
+  destruct (ingest_at_fail_cases fx w j sender ops) as [->|[E1 _]]; [apply log_rel_ingest_at|].
+  apply log_rel_ext. symmetry. exact E1.
+Qed.
+
 Lemma log_rel_write fx w n k v lease del : log_rel w (do_write fx w n k v lease del).1.
 Proof.
   destruct (do_write_shape fx w n k v lease del) as [[-> _]|(nd & lh & ndl & Hn & Ha & Hl & _ & ->)]; [apply log_rel_refl|].
@@ -445,7 +475,7 @@ Definition applies_recovery (s : step_t) : bool :=
 
 Theorem step_complete fx T w s : applies_recovery s = false -> log_rel w (step fx T w s).1.
 Proof.
-  intros Hs. destruct s as [n k v lease|n k|n sender b|n|m n|i j late|f| |n|n p|n p|n p|n s filter|n s]; simpl in *; try discriminate.
+  intros Hs. destruct s as [n k v lease|n k|n sender b|n|m n|i j late|f| |n|n p|n p|n p|n s filter|fn g|n s]; simpl in *; try discriminate.
   - apply log_rel_write.
   - apply log_rel_write.
   - apply log_rel_ingest_at.
@@ -465,7 +495,14 @@ Proof.
     apply (log_rel_upd_same w n nd); [exact En|reflexivity|reflexivity].
   - unfold subscribe. destruct (w_nodes w !! n) as [nd|] eqn:En; [|apply log_rel_refl].
     destruct (n_subs nd !! s); [apply log_rel_refl|].
-    apply (log_rel_upd_same w n nd); [exact En|reflexivity|reflexivity].  - unfold stall. destruct (w_nodes w !! n) as [nd|] eqn:En; [|apply log_rel_refl].
+    apply (log_rel_upd_same w n nd); [exact En|reflexivity|reflexivity].  - destruct g as [n sender b|m n|i j late]; simpl.
+    + apply log_rel_ingest_at_f.
+    + destruct (w_msgs w !! m) as [[sender ops]|]; simpl; [apply log_rel_ingest_at_f|apply log_rel_refl].
+    + unfold round_f. destruct (w_nodes w !! i); [|apply log_rel_refl]. destruct (w_nodes w !! j); [|apply log_rel_refl].
+      destruct (bool_decide (i = j)); [apply log_rel_refl|].
+      destruct (payload w i) as [|o pl]; [apply log_rel_refl|].
+      destruct late; (eapply log_rel_trans; [apply log_rel_ingest_at_f|apply log_rel_ingest_at_f]).
+  - unfold stall. destruct (w_nodes w !! n) as [nd|] eqn:En; [|apply log_rel_refl].
     apply (log_rel_upd_same w n nd); [exact En|reflexivity|reflexivity].
 Qed.
 
